@@ -231,7 +231,8 @@ impl SecretKey {
 
                 // create scalar and reverse to little endian
                 // https://www.rfc-editor.org/rfc/rfc9580.html#name-curve25519legacy-ecdh-secre
-                Mpi::from_raw(bytes.to_vec().into())
+                // (an MPI has no leading zero octets)
+                Mpi::from_slice(&bytes)
             }
             Self::P256 { secret, .. } => Mpi::from_slice(&secret.to_bytes()),
             Self::P384 { secret, .. } => Mpi::from_slice(&secret.to_bytes()),
